@@ -1,6 +1,7 @@
 import TapkeeVerif.Proofs.LandmarksEuclid
 import TapkeeVerif.Proofs.LandmarksRatioOne
 import TapkeeVerif.Proofs.LandmarksWitness
+import TapkeeVerif.Proofs.LandmarksNegEig
 /-!
 # C11 — landmark methods embed landmarks exactly and triangulate the rest consistently
 
@@ -347,6 +348,58 @@ example : ∃ s : Vec 1 ℚ, IsSqrt s Witness.mu4 ∧
     ((lisomapPost_ok_iff _ _ _ _).mpr ⟨by norm_num, by intro i; simp [Witness.q4], rfl⟩)
     Witness.V4 (fun _ => rfl) Witness.eig4 (by intro i; simp [Witness.mu4])
     (by intro i; simp [Witness.q4, Witness.mu4]; norm_num)
+
+/-- **The full `ratio = 1` statement for Landmark Isomap is false of the code** (F-LISOMAP-NEGEIG).  Four samples
+    with the metric `d(0,1)=d(2,3)=16, d(0,2)=d(1,3)=25, d(0,3)=d(1,2)=9` (its own geodesic matrix for `k = 3`),
+    `lm = id`, `d = 3`.  The solver's answer for `B Bᵀ` is exact, orthonormal and complete (its eigenvalues sum to the
+    trace, so it is the top-3 answer): `400², 225², 144²`.  The third direction belongs to the eigenvalue `−144` of the
+    centred geodesic matrix; Landmark Isomap embeds along it (`−12·v`), whereas NO Isomap-type embedding
+    (`B V = V diag μ`, `s² = μ`) has a Gram matrix with a component along it. -/
+theorem lisomap_ratio_one_refuted :
+    ¬ ∀ (N d : Nat) (G : Mat N N ℚ) (lm : Fin N → Fin N) (V' : Mat N d ℚ) (lam' q : Vec d ℚ) (E : Mat N d ℚ),
+        (∀ x y, G x y = G y x) → Function.Bijective lm →
+        IsEig (lisomapSym (lisomapPre fun k j => G (lm k) j)) V' lam' → IsOrthonormal V' →
+        (∑ x, lisomapSym (lisomapPre fun k j => G (lm k) j) x x = ∑ i, lam' i) →
+        IsFourthRoot q lam' →
+        lisomapPost (lisomapPre fun k j => G (lm k) j) V' q = .ok E →
+        ∃ (V : Mat N d ℚ) (μ s : Vec d ℚ),
+          IsEig (isomapPreOfGeodesics G) V μ ∧ IsSqrt s μ ∧ gramRows (post V s) = gramRows E := by
+  intro h
+  have hpre : (lisomapPre fun k j => Witness.G9 (id k) j) = Witness.B9 := by
+    funext k j; exact Witness.lisomapPre9 k j
+  have hB : isomapPreOfGeodesics Witness.G9 = Witness.B9 := by
+    funext x y; exact Witness.isomapPre9 x y
+  obtain ⟨V, μ, s, heig, hs, hgram⟩ := h 4 3 Witness.G9 id Witness.V9 Witness.lam9 Witness.q9
+    (lisomapRows Witness.B9 Witness.V9 Witness.q9) Witness.G9_symm Function.bijective_id
+    (by rw [hpre]; exact isEig_sym_of_isEig _ Witness.B9_symm _ _ Witness.eigB9) Witness.orth9
+    (by rw [hpre]; exact Witness.trace9) Witness.root9
+    (by
+      rw [hpre]
+      exact (lisomapPost_ok_iff _ _ _ _).mpr ⟨by norm_num, by intro i; fin_cases i <;> simp [Witness.q9], rfl⟩)
+  rw [hB] at heig
+  -- Isomap-type embeddings have no component along hB ...
+  have h0 := isomap_gram_vanishes_on_negative_direction Witness.B9 Witness.B9_symm Witness.hB 144 (by norm_num)
+    Witness.hB_eig V μ s heig hs
+  -- ... Landmark Isomap's third column is −12·hB
+  have hcol : ∑ x, Witness.hB x * lisomapRows Witness.B9 Witness.V9 Witness.q9 x 2 ≠ 0 := by
+    have : ∀ x, lisomapRows Witness.B9 Witness.V9 Witness.q9 x 2 = -12 * Witness.hB x := by
+      intro x
+      unfold lisomapRows
+      rw [sumFin_eq_sum]
+      have : ∑ a, Witness.B9 a x * Witness.V9 a 2 = -144 * Witness.hB x := by
+        rw [← Witness.hB_eig x]
+        apply Finset.sum_congr rfl; intro a _
+        rw [Witness.B9_symm a x]
+        simp [Witness.V9]
+      rw [this]
+      simp [Witness.q9]
+      ring
+    simp only [this, Fin.sum_univ_four]
+    simp [Witness.hB]
+    norm_num
+  have hpos := gram_pos_of_column (lisomapRows Witness.B9 Witness.V9 Witness.q9) Witness.hB 2 hcol
+  rw [hgram] at h0
+  linarith
 
 end lisomap
 
